@@ -132,6 +132,60 @@ def _source(root, rel):
     return _SRC_CACHE[k]
 
 
+def publicize(text):
+    """visibility only (no run-time meaning): the item and every field of a struct become `pub`, so that spec functions
+    of the single-file unit may mention them"""
+    msk = X.mask(text)
+    m = re.match(r'\s*(pub(\([a-z]+\))?\s+)?(struct|enum|const|type|exec const)\b', msk)
+    if not m:
+        return text
+    kind = m.group(3)
+    if not m.group(1):
+        text = text[:m.start(3)] + 'pub ' + text[m.start(3):]
+        msk = X.mask(text)
+    elif m.group(2):
+        text = text[:m.start(1)] + 'pub ' + text[m.end(1):]
+        msk = X.mask(text)
+    if kind != 'struct':
+        return text
+    # find the field list: first '{' or '(' at angle depth 0 after the name
+    k = msk.index('struct')
+    d = 0
+    while k < len(msk):
+        c = msk[k]
+        if c == '<':
+            d += 1
+        elif c == '>' and msk[k - 1] != '-':
+            d -= 1
+        elif c in '{(' and d == 0:
+            break
+        elif c == ';' and d == 0:
+            return text
+        k += 1
+    if k >= len(msk):
+        return text
+    e = X.match_close(msk, k)
+    inner, inner_m = text[k + 1:e], msk[k + 1:e]
+    out, start, depth = '', 0, 0
+    segs = []
+    for i, c in enumerate(inner_m):
+        if c in '([{<':
+            depth += 1
+        elif c in ')]}' or (c == '>' and inner_m[i - 1] != '-'):
+            depth -= 1
+        elif c == ',' and depth == 0:
+            segs.append((start, i + 1))
+            start = i + 1
+    segs.append((start, len(inner)))
+    for (a, b) in segs:
+        seg, segm = inner[a:b], inner_m[a:b]
+        fm = re.search(r'[A-Za-z_&\[(\']', segm)
+        if fm and not segm[fm.start():].startswith('pub'):
+            seg = seg[:fm.start()] + 'pub ' + seg[fm.start():]
+        out += seg
+    return text[:k + 1] + out + text[e:]
+
+
 def _emit_copy(gen, root, cp):
     src = _source(root, cp.file)
     text, line, attrs = src.find_item(cp.regex)
@@ -146,6 +200,10 @@ def _emit_copy(gen, root, cp):
             raise X.ExtractError('ANCHOR-LOST copy subst %s: %r' % (cp.file, a))
         text = text.replace(a, b)
         fired.append('SUBST %r -> %r' % (a, b))
+    t3 = publicize(text)
+    if t3 != text:
+        fired.append('R6 visibility normalised (item and fields made pub)')
+        text = t3
     if cp.prefix:
         _emit(gen, cp.prefix, ('copy', cp.file, line, True))
     for i, ln in enumerate(text.split('\n')):
